@@ -235,10 +235,12 @@ func init() {
 	}
 
 	svc := HarnessSpec{Pkg: mg, Func: "ZZ_SVC_Scenarios", Quick: &Tier{Params: map[string]int{"realjobs": 1, "scenarios": 11}, Samples: 12},
+		Thorough: &Tier{Params: map[string]int{"realjobs": 1, "scenarios": 11, "payloadmax": 6, "thresholdmax": 12}, Samples: 24},
 		Bounds: "ten job-level schedules: sequential imports with merge; queued imports; an import completing while a merge is in flight; an import extending a stream while a tagging job of a data tag is in flight; an import that creates no index followed by a merge; a capture arriving out of chronological order (stream reset); a referenced tag edited (to a definition with other members / with no members) while the job of the tag referencing it is in flight; a view first used before the first import; a tag deleted, re-added and referenced while its job is in flight; a tag deleted while its job is in flight, then a merge. Payload sizes of the first flow and the threshold of the data tag are symbolic"}
 	svcAssume := []string{"Manager constructed in-package as New() does (no watchers, converters, stored state); real service loop, real import/tagging/merge jobs and completion closures; goroutines under the engine's cooperative scheduler", "engine: Builder.FromPcap (cgo libpcap) replaced by a scripted importer that writes the index with the real Writer; natively the real importer reads generated capture files", "interleavings are sequenced by the harness at job granularity (the in-flight job's snapshot is taken by hand exactly as the starter does), so the schedule replays natively"}
 	svcOut := []string{"interleavings below job granularity", "converter jobs", "more than 4 captures", "restarts"}
 	svcSub := HarnessSpec{Pkg: mg, Func: "ZZ_SVC_Scenarios", Desc: "with a tag whose definition has a sub-query", Quick: &Tier{Params: map[string]int{"realjobs": 1, "scenarios": 2, "subtag": 1}, Samples: 4},
+		Thorough: &Tier{Params: map[string]int{"realjobs": 1, "scenarios": 6, "subtag": 1, "payloadmax": 5, "thresholdmax": 10}, Samples: 8},
 		Bounds: "the sequential and the queued schedule with a fourth tag `@s:cport:1000 cport:@s:cport@:` (re-evaluated as a whole after every import)"}
 	for _, pid := range []string{"C06", "C09", "C10", "C13"} {
 		registry[pid] = CheckSpec{Property: pid, Harnesses: []HarnessSpec{svc}, Assumptions: svcAssume, Outside: svcOut}
@@ -259,6 +261,7 @@ func init() {
 	registry["C06"] = c06
 
 	cnv := HarnessSpec{Pkg: mg, Func: "ZZ_C16_Converters", Quick: &Tier{Params: map[string]int{"realjobs": 1, "scenarios": 7}, Samples: 8},
+		Thorough: &Tier{Params: map[string]int{"realjobs": 1, "scenarios": 7, "payloadmax": 6, "thresholdmax": 12}, Samples: 16},
 		Bounds: "six job-level schedules with one converter: attached after imports, then an import that extends a converted stream and adds a matching one; attached before the first import; an import extending a stream while the converter job about to convert it is in flight; attached to a second tag while its job for the first is in flight; detached, then an import with a matching stream; converter restarted. Payload sizes and the data tag's threshold symbolic"}
 	registry["C16"] = CheckSpec{Property: "C16", Harnesses: []HarnessSpec{cnv},
 		Assumptions: append([]string{"the converter process (os/exec, pipes, JSON line protocol) is replaced in the engine by a scripted converter computing the same function of the stream's payload (one client chunk: 'A' + client bytes mod 26) as the python executable the native replay really starts through the real process layer", "the converter is registered as addConverter does (NewCache + the two maps) without the executable/regexp checks"}, svcAssume...),
@@ -293,7 +296,7 @@ func init() {
 			{Pkg: cv, Func: "ZZ_C15_Cache", Desc: "chunk lists that may be empty, 3 operations", Quick: tier(map[string]int{"ops": 3, "chunks": 1, "chunklen": 1, "ctypes": 1, "dts": 1, "emptylist": 1}), Thorough: tier(map[string]int{"ops": 4, "chunks": 1, "chunklen": 1, "ctypes": 1, "dts": 1, "emptylist": 1, "forcecompaction": 1}),
 				Bounds: "as above with chunk lists of 0..1 chunks: an empty converter output is stored, replaces older output and survives a reopen"},
 			{Pkg: cv, Func: "ZZ_C15_Cut", Quick: tier(map[string]int{"chunks": 1, "chunklen": 2, "ctypes": 2, "dts": 2}), Bounds: "converter cache cut inside its last record (shared with C15)"},
-			{Pkg: mg, Func: "ZZ_C12_Restart", Quick: &Tier{Params: map[string]int{"realjobs": 1, "gates": 9}, Samples: 10}, Bounds: "a service with 3 tags and 2..3 imported captures is shut down or killed at one of 9 job-level gates (settled; tagging job in flight with a later import completed; between an import's body and completion; inside the body with the index cut at 4 positions; merge body between an import's body and completion, killed / shut down later; inside a state save with the new file cut at 4 positions; while the inputs of a finished merge were being deleted; between writing the new state file and removing the old one); the real manager.New starts from the directories left behind, settles, optionally imports one more capture; payload sizes and the data tag's threshold symbolic"},
+			{Pkg: mg, Func: "ZZ_C12_Restart", Quick: &Tier{Params: map[string]int{"realjobs": 1, "gates": 9}, Samples: 10}, Thorough: &Tier{Params: map[string]int{"realjobs": 1, "gates": 9, "payloadmax": 6, "thresholdmax": 12}, Samples: 20}, Bounds: "a service with 3 tags and 2..3 imported captures is shut down or killed at one of 9 job-level gates (settled; tagging job in flight with a later import completed; between an import's body and completion; inside the body with the index cut at 4 positions; merge body between an import's body and completion, killed / shut down later; inside a state save with the new file cut at 4 positions; while the inputs of a finished merge were being deleted; between writing the new state file and removing the old one); the real manager.New starts from the directories left behind, settles, optionally imports one more capture; payload sizes and the data tag's threshold symbolic"},
 		},
 		Assumptions: []string{"FILE-FORMAT SLICE ONLY: a half-written index, snapshot or cache file is modelled as a prefix of the complete file (cut at a byte) or as the pre-Finalize content; completed system calls persist", "NOT covered: the state file (JSON via reflection), manager.New's directory scan and tag re-convergence after restart, crash points between individual system calls of a running service"},
 		Outside: []string{"restart of the whole service", "state.json", "torn writes / reordering below system-call level"},
